@@ -30,6 +30,15 @@ def make_evaluable(modules, imports, level_limit=None):
     )
 
 
+def evaluable_for(spec: dict):
+    """The architecture a case is judged on: spec['tree'] / spec['imports'] directly, or - if the spec carries a pre-image
+    ('full_tree', 'full_imports', 'level_limit') - the deeper architecture flattened by level_limit, whose quotient is
+    exactly spec['tree'] / spec['imports']."""
+    if spec.get("full_tree"):
+        return make_evaluable(spec["full_tree"], [tuple(e) for e in spec["full_imports"]], spec["level_limit"])
+    return make_evaluable(spec["tree"], [tuple(e) for e in spec["imports"]])
+
+
 def snapshot(ev) -> tuple:
     """(modules, import edges, hierarchy edges) of an evaluable, read from the graph's 'inherits' attribute."""
     g = ev._graph._graph
